@@ -1,5 +1,6 @@
 import SkaModel.Core.Proto
 import SkaModel.Core.Selection
+import SkaModel.Core.SeqChoice
 
 /-! Driver commands for the selection primitives (C18). One self-contained case per line. -/
 
@@ -61,8 +62,20 @@ def cmdSimpleBatch : P String := do
         | .ok rs => showRows rs | .error e => showErr e)
     | _ => pure (showErr .method)
 
+/-- `choicenr <size> <p…> <rounds> (<us…>)×rounds` → `picks … | enough=<0|1>` or `none`
+(numpy's `choice(n, size, replace=False, p=p)` on the weight vector and the uniform draws of its rounds) -/
+def cmdChoiceNR : P String := do
+  let size ← nat
+  let p ← listOf float
+  let r ← nat
+  let uss ← many (listOf float) r
+  let enough := decide (size ≤ (Ska.Seq.posIdx p).length)
+  match Ska.Seq.choiceNR p size uss [] with
+  | some res => pure s!"picks {showNats res} | enough={if enough then 1 else 0}"
+  | Option.none => pure s!"none | enough={if enough then 1 else 0}"
+
 def handlers : List (String × P String) :=
-  [ ("randargmax", cmdRandArg true), ("randargmin", cmdRandArg false),
+  [ ("choicenr", cmdChoiceNR), ("randargmax", cmdRandArg true), ("randargmin", cmdRandArg false),
     ("randargmax_rows", cmdRandArgRows true), ("randargmin_rows", cmdRandArgRows false),
     ("randargmax_flat2", cmdRandArgFlat2 true), ("randargmin_flat2", cmdRandArgFlat2 false),
     ("simplebatch", cmdSimpleBatch) ]
